@@ -34,6 +34,7 @@ type tcase struct {
 	E      uint32
 	Stream string
 	Seq    []sval `json:"Seq,omitempty"` // stab / stabc: the values written, in order
+	Arg    string `json:"Arg,omitempty"` // prim (prims.go): the second text argument, hex
 }
 
 func (t *tcase) fix() {
@@ -403,6 +404,10 @@ func Run(c *core.Ctx) int {
 			runStabCase(c, rc)
 			return c.Finish("replay", nil)
 		}
+		if rc.Op == "prim" {
+			replayPrim(c, rc)
+			return c.Finish("replay", nil)
+		}
 		rc.fix()
 		return runCases(c, []tcase{rc})
 	}
@@ -527,6 +532,8 @@ func Run(c *core.Ctx) int {
 	lookalikeCases(r, c.Pick(12000, 150000), add, func(name string) { c.Count(name, 1) })
 	// what the writers return stays what it was while further values are written
 	stability(c, r)
+	// the primitives under the translated codec (Generated/CodecSrc.lean) against the real library functions
+	prims(c, r)
 	// written texts
 	for _, v := range boundaryValues() {
 		for e := uint32(0); e <= 18; e++ {
